@@ -1,18 +1,34 @@
-"""SIGALRM watchdog around calls into /repo code (DESIGN.md §2.5 d)."""
+"""SIGALRM watchdog around calls into /repo code (DESIGN.md §2.5 d).
+
+A change that makes the implementation loop forever on MANY inputs would otherwise cost (limit x cases) of wall time: after
+`STRIKES` calls have hit their limit in one process, every later limit is cut to `SHORT` seconds — the non-termination is
+already established (and reported with the first cases as replay), the rest of the run only has to finish."""
 import signal
 from contextlib import contextmanager
+
+STRIKES = 3
+SHORT = 5.0
+_timeouts = 0
 
 
 class Timeout(Exception):
     pass
 
 
+def timeouts_seen():
+    return _timeouts
+
+
 @contextmanager
 def time_limit(seconds: float):
+    limit = min(seconds, SHORT) if _timeouts >= STRIKES else seconds
+
     def handler(signum, frame):
-        raise Timeout(f"call exceeded {seconds}s")
+        global _timeouts
+        _timeouts += 1
+        raise Timeout(f"call exceeded {limit}s")
     old = signal.signal(signal.SIGALRM, handler)
-    signal.setitimer(signal.ITIMER_REAL, seconds)
+    signal.setitimer(signal.ITIMER_REAL, limit)
     try:
         yield
     finally:
